@@ -30,6 +30,8 @@ pub struct Sys {
     pub rp_on: bool,
     /// a task claimed by hand (`claim` op) and not yet finished
     pub claimed: std::sync::Mutex<Option<(Box<Ident>, String)>>,
+    /// keys made by the harness (`childkey` op), by slot name: several children may ask for the SAME key
+    pub slot_keys: std::sync::Mutex<HashMap<String, rpki::crypto::KeyIdentifier>>,
     pub t0: i64,
     /// C06 (`sk=1`): the observation lists every stored command / change set of every aggregate as a
     /// shape skeleton (`stored`), and `reloadcheck` also covers the publication server and the
@@ -185,6 +187,7 @@ impl Sys {
             full_obs: cfg.get("obs").map(|s| s != "min").unwrap_or(true),
             rp_on: cfg.get("rp").map(|s| s != "0").unwrap_or(true),
             claimed: std::sync::Mutex::new(None),
+            slot_keys: std::sync::Mutex::new(HashMap::new()),
             t0: unix_now(),
             sk, stored_seen, boot_stored,
             _rt: rt, scratch,
@@ -324,6 +327,41 @@ impl Sys {
             }
             ["childrm", parent, child] => {
                 cm.ca_child_remove(&h(parent), ChildHandle::from_str(child).unwrap(), actor, rt)?;
+                Ok("ok".into())
+            }
+            // `child` asks `parent` over RFC 6492 (a CMS signed with its identity key, through `CaManager::rfc6492`) to
+            // certify / revoke the harness key of `slot` in the class the parent calls `rcn`: a key the child CA itself
+            // knows nothing about - and several children may name the same slot (one public key held by two children)
+            ["childkey", parent, child, slot, rcn] | ["childkeyrevoke", parent, child, slot, rcn] => {
+                use rpki::ca::provisioning::{self, IssuanceRequest, RequestResourceLimit, RevocationRequest};
+                let c = cm.get_ca(&h(child))?;
+                let id_key = c.id_cert().public_key.key_identifier();
+                let sender = ChildHandle::from_str(child).unwrap().convert();
+                let recipient = ParentHandle::from_str(parent).unwrap().convert();
+                let key = {
+                    let mut m = self.slot_keys.lock().unwrap();
+                    match m.get(*slot) {
+                        Some(k) => *k,
+                        None => {
+                            let k = krill.signer().create_key().map_err(Error::signer)?;
+                            m.insert(slot.to_string(), k);
+                            k
+                        }
+                    }
+                };
+                let msg = if w[0] == "childkey" {
+                    let repo = c.repository_contact()?.repo_info.clone();
+                    let csr = krill.signer().sign_csr(&repo, &format!("x{slot}"), &key).map_err(Error::signer)?;
+                    provisioning::Message::issue(
+                        sender,
+                        recipient,
+                        IssuanceRequest::new(ResourceClassName::from(*rcn), RequestResourceLimit::default(), csr),
+                    )
+                } else {
+                    provisioning::Message::revoke(sender, recipient, RevocationRequest::new(ResourceClassName::from(*rcn), key))
+                };
+                let cms = krill.signer().create_rfc6492_cms(msg, &id_key).map_err(Error::signer)?.to_bytes();
+                cm.rfc6492(&h(parent), cms, Some("harness/1.0.0".to_string()), actor, rt)?;
                 Ok("ok".into())
             }
             ["parentrm", ca, parent] => {
